@@ -107,6 +107,8 @@ func checkC11(c *Ctx) {
 	checkC11Retain(c, p)
 	checkC11Append(c, p)
 	checkC11InnerPtr(c, p)
+	checkC11SharedPtr(c, p)
+	checkC11Reader(c, p)
 }
 
 // sharedSource: v is (derived from) a package-level variable or crypto/elliptic's shared CurveParams.
@@ -218,12 +220,19 @@ var outputParam = regexp.MustCompile(`^(dst|out|output|buf|b|ct|ss|sig|signature
 // checkC11Operands: protocol-level API operations do not write their non-receiver operands.
 func checkC11Operands(c *Ctx, p *Program) {
 	mod := p.Mod()
-	pkgs := []string{"oprf", "zk/dleq", "zk/dl", "zk/qndleq", "secretsharing", "math/polynomial", "tss/rsa", "hpke", "sign/bls", "blindsign/blindrsa", "blindsign/blindrsa/partiallyblindrsa", "abe/cpabe/tkn20", "ot/simot", "kem/hybrid", "kem/xwing", "dh/csidh"}
+	pkgs := []string{"oprf", "zk/dleq", "zk/dl", "zk/qndleq", "secretsharing", "math/polynomial", "tss/rsa", "hpke", "sign/bls", "blindsign/blindrsa", "blindsign/blindrsa/partiallyblindrsa", "abe/cpabe/tkn20", "ot/simot", "kem/hybrid", "kem/xwing", "dh/csidh", "dh/curve4q", "dh/x25519", "dh/x448", "ecc/fourq"}
 	// declared outputs, by (function, parameter name)
 	declared := map[string]bool{
 		"dh/csidh.GeneratePublicKey#pub":  true, // documented: pub receives the generated key
 		"dh/csidh.GeneratePrivateKey#key": true,
 		"dh/csidh.DeriveSecret#out":       true,
+		"(*ecc/fourq.Point).Marshal#out":  true, // documented: the encoding is written to out
+		"dh/curve4q.Shared#shared":        true, // the DH functions write their first argument
+		"dh/curve4q.KeyGen#public":        true,
+		"dh/x25519.Shared#shared":         true,
+		"dh/x25519.KeyGen#public":         true,
+		"dh/x448.Shared#shared":           true,
+		"dh/x448.KeyGen#public":           true,
 	}
 	n := 0
 	for _, pkg := range pkgs {
@@ -824,5 +833,145 @@ func checkC11InnerPtr(c *Ctx, p *Program) {
 	c.count("innerptr_sites", n)
 	if nbad == 0 {
 		c.ok("C11.innerptr", "objects handed out hold no address of another key object's fields", fmt.Sprintf("%d functions inspected", len(fs)), "")
+	}
+}
+
+// isReceiverVal: v is the receiver of f, possibly reloaded from the cell it was spilled to.
+func isReceiverVal(f *ssa.Function, v ssa.Value) bool {
+	if f.Signature.Recv() == nil || len(f.Params) == 0 {
+		return false
+	}
+	if v == ssa.Value(f.Params[0]) {
+		return true
+	}
+	ld, ok := v.(*ssa.UnOp)
+	if !ok || ld.Op != token.MUL {
+		return false
+	}
+	a, ok := ld.X.(*ssa.Alloc)
+	if !ok {
+		return false
+	}
+	n := 0
+	for _, r := range *a.Referrers() {
+		if st, ok := r.(*ssa.Store); ok && st.Addr == ssa.Value(a) {
+			n++
+			if st.Val != ssa.Value(f.Params[0]) {
+				return false
+			}
+		}
+	}
+	return n == 1
+}
+
+// checkC11SharedPtr: an exported accessor that hands out the very pointer it keeps in a field of its
+// receiver must return a type that has no method writing its receiver: otherwise modifying (re-decoding)
+// the returned object changes what later calls on the receiver return.
+func checkC11SharedPtr(c *Ctx, p *Program) {
+	mod := p.Mod()
+	var fs []*ssa.Function
+	for f := range p.AllFuncs {
+		if f.Blocks != nil && isCirclFunc(f) && f.Synthetic == "" && f.Parent() == nil && f.Signature.Recv() != nil && f.Object() != nil && f.Object().Exported() {
+			fs = append(fs, f)
+		}
+	}
+	sort.Slice(fs, func(i, j int) bool { return fs[i].String() < fs[j].String() })
+	n, nbad := 0, 0
+	for _, f := range fs {
+		for _, b := range f.Blocks {
+			ret, ok := b.Instrs[len(b.Instrs)-1].(*ssa.Return)
+			if !ok {
+				continue
+			}
+			for _, r := range ret.Results {
+				v := r
+				if mi, ok := v.(*ssa.MakeInterface); ok {
+					v = mi.X
+				}
+				ld, ok := v.(*ssa.UnOp)
+				if !ok || ld.Op != token.MUL {
+					continue
+				}
+				fa, ok := ld.X.(*ssa.FieldAddr)
+				if !ok || !isReceiverVal(f, fa.X) {
+					continue
+				}
+				pt, ok := ld.Type().Underlying().(*types.Pointer)
+				if !ok {
+					continue
+				}
+				nt, ok := pt.Elem().(*types.Named)
+				if !ok || nt.Obj().Pkg() == nil || !strings.HasPrefix(nt.Obj().Pkg().Path(), circlPath) {
+					continue
+				}
+				n++
+				var muts []string
+				ms := p.SSA.MethodSets.MethodSet(ld.Type())
+				for i := 0; i < ms.Len(); i++ {
+					m := p.SSA.MethodValue(ms.At(i))
+					if m == nil || m.Blocks == nil {
+						continue
+					}
+					for _, w := range mod.of(m) {
+						if w.Root == "param#0" && !w.Sync {
+							muts = append(muts, m.Name())
+							break
+						}
+					}
+				}
+				sort.Strings(muts)
+				construct := fmt.Sprintf("%s: the pointer kept in field %s is handed out only if *%s has no method writing its receiver", fname(f), fieldName(fa), nt.Obj().Name())
+				if len(muts) > 0 {
+					nbad++
+					c.bad("C11.sharedptr", construct, fmt.Sprintf("the returned object is the receiver's own; its methods %v write it, so modifying the returned object changes the receiver", muts), p.pos(ret.Pos()))
+				} else {
+					c.ok("C11.sharedptr", construct, "no method of the returned type writes its receiver", p.pos(ret.Pos()))
+				}
+			}
+		}
+	}
+	c.count("sharedptr_accessors", n)
+	if nbad == 0 && n == 0 {
+		c.ok("C11.sharedptr", "exported accessors hand out no pointer kept in a receiver field", fmt.Sprintf("%d methods inspected", len(fs)), "")
+	}
+}
+
+// checkC11Reader: a function that is handed an io.Reader as its source of randomness draws from it;
+// one that ignores the argument takes its randomness from somewhere the caller did not pass in (a
+// process-global source), so its result does not depend on its explicit arguments only.
+func checkC11Reader(c *Ctx, p *Program) {
+	// deterministic signature schemes implement crypto.Signer, whose Sign has a rand argument they must ignore
+	deterministic := regexp.MustCompile(`^\(\*?sign/(dilithium/mode[235]|mldsa/mldsa(44|65|87)|ed25519|ed448|eddilithium[23])\.PrivateKey\)\.Sign$`)
+	var fs []*ssa.Function
+	for f := range p.AllFuncs {
+		if f.Blocks != nil && isCirclFunc(f) && f.Synthetic == "" && f.Parent() == nil {
+			fs = append(fs, f)
+		}
+	}
+	sort.Slice(fs, func(i, j int) bool { return fs[i].String() < fs[j].String() })
+	n, nbad, nexc := 0, 0, 0
+	for _, f := range fs {
+		for _, par := range f.Params {
+			if par.Type().String() != "io.Reader" {
+				continue
+			}
+			n++
+			if len(*par.Referrers()) > 0 {
+				continue
+			}
+			if deterministic.MatchString(fname(f)) {
+				nexc++
+				continue
+			}
+			nbad++
+			c.bad("C11.reader", fname(f)+": the io.Reader argument is the source of the randomness used", "the argument is never read: the randomness comes from a source that is not an argument of the call", p.fnPos(f))
+		}
+	}
+	c.count("reader_params", n)
+	if n < 60 {
+		c.undecided("C11.reader", "functions with an io.Reader parameter", fmt.Sprintf("only %d found (floor 60)", n), "")
+	}
+	if nbad == 0 {
+		c.ok("C11.reader", "every function handed an io.Reader uses it as its source of randomness", fmt.Sprintf("%d parameters inspected; %d belong to crypto.Signer.Sign of deterministic schemes, which must ignore it", n, nexc), "")
 	}
 }
